@@ -405,12 +405,19 @@ def standard_check(run, prop, scenarios, meta, coq_oracles, py_oracle=None, coq_
             si, oi, op, obs, t = live[i]
             run.violation({"kind": "property oracle %s false on the implementation's observation" % fn,
                            "scenario": scenarios[si], "op_index": oi, "observed": obs}); n_viol += 1
-    py_fail = []
+    py_fail, n_known = [], {}
     if py_oracle is not None:
         for si, (sc, out) in enumerate(zip(scenarios, outs)):
             if "ops" in out:
                 for msg in py_oracle(sc, out):
-                    py_fail.append((si, msg))
+                    if isinstance(msg, tuple) and msg[0] == "known":
+                        # a departure inside a class recorded in KNOWN_FINDINGS.json
+                        if any(k.get("id") == msg[1] for k in run.known_findings):
+                            run.known_finding(msg[1], msg[2]); n_known[msg[1]] = n_known.get(msg[1], 0) + 1
+                        else:
+                            py_fail.append((si, "unlisted finding class %s: %s" % (msg[1], msg[2])))
+                    else:
+                        py_fail.append((si, msg))
         for si, msg in py_fail[:3]:
             run.violation({"kind": "independent oracle: " + msg, "scenario": scenarios[si], "observed": outs[si]}); n_viol += 1
     pair_fail = pair_oracle(scenarios, outs) if pair_oracle is not None else []
@@ -445,7 +452,7 @@ def standard_check(run, prop, scenarios, meta, coq_oracles, py_oracle=None, coq_
         "outcome_histogram": {"%s/%s" % k: v for k, v in sorted(kinds.items())},
         "model_disagreements": len(res["agree"]), "oracle_failures": {fn: len(res[fn]) for fn in coq_oracles},
         "python_oracle_failures": len(py_fail), "relational_oracle_failures": len(pair_fail), "crashes": len(crashed),
-        "scenarios": len(scenarios), "corpus": len(corpus),
+        "scenarios": len(scenarios), "corpus": len(corpus), "known_finding_hits": n_known,
     })
     run.assumptions += list(assumptions)
     return scenarios, outs, live, res
@@ -507,7 +514,7 @@ def gen_history(rng, tier="quick", kinds=None, with_hmac=False, faults=False, ca
            "hmac": rng.choice([None, None, {"without_uv": False, "on_mc": False}, {"without_uv": True, "on_mc": False},
                                {"without_uv": False, "on_mc": True}, {"without_uv": True, "on_mc": True}]) if with_hmac else None,
            "aaguid": bytes(rng.randrange(256) for _ in range(16)).hex()}
-    verif = rng.choice([True, True, True, False, None])
+    verif = rng.choice([True] * 7 + [False, None])
     script = []
     ops = []
     for _ in range(rng.randrange(1, max_ops + 1)):
@@ -563,8 +570,10 @@ def gen_history(rng, tier="quick", kinds=None, with_hmac=False, faults=False, ca
         sc["faults"] = [{"at": rng.randrange(0, 8), "code": rng.choice([0x01, 0x28, 0x2E, 0x7F, 0xF0, 0x19, 0x27])}
                         for _ in range(rng.choice([1, 1, 2]))]
     if cancel and rng.random() < 0.6:
-        sc["yield"] = True
-        sc["ops"][rng.randrange(len(ops))]["cancel_after"] = rng.randrange(1, 9)
+        cand = [o for o in sc["ops"] if o["op"] != "get_info"]
+        if cand:
+            sc["yield"] = True
+            rng.choice(cand)["cancel_after"] = rng.randrange(1, 9)
     return sc
 
 
